@@ -882,6 +882,26 @@ func genAccessors(p *packages.Package, absRepo, srcOut string, overlay map[strin
 		}
 		rep.Accessors["environment.Environment.VerifGlobalNames"] = gfield
 		code += "\n// VerifGlobalNames lists the global variables that exist.\nfunc (e *Environment) VerifGlobalNames() ([]string, bool) { " + gbody + " }\n"
+		// the names of the functions that are registered (built-ins and the host's)
+		ffield := findField(p, "Environment", func(t types.Type) bool {
+			m, ok := t.Underlying().(*types.Map)
+			if !ok {
+				return false
+			}
+			b, ok := m.Key().Underlying().(*types.Basic)
+			if !ok || b.Kind() != types.String {
+				return false
+			}
+			_, isIface := m.Elem().Underlying().(*types.Interface)
+			return isIface && !strings.HasSuffix(m.Elem().String(), "/object.Object")
+		})
+		fbody := "return nil, false"
+		if ffield != "" {
+			fbody = "out := make([]string, 0, len(e." + ffield + ")); for k := range e." + ffield + " { out = append(out, k) }; sort.Strings(out); return out, true"
+			code = strings.Replace(code, "package environment\n", "package environment\n\nimport \"sort\"\n", 1)
+		}
+		rep.Accessors["environment.Environment.VerifFunctionNames"] = ffield
+		code += "\n// VerifFunctionNames lists the registered functions.\nfunc (e *Environment) VerifFunctionNames() ([]string, bool) { " + fbody + " }\n"
 	case "vm":
 		field := findField(p, "VM", func(t types.Type) bool {
 			pt, ok := t.(*types.Pointer)
@@ -915,7 +935,12 @@ func genAccessors(p *packages.Package, absRepo, srcOut string, overlay map[strin
 		if fe != "" {
 			b3 = "if e." + fe + " == nil { return nil, false }; return e." + fe + ".VerifGlobalNames()"
 		}
+		b4 := "return nil, false"
+		if fe != "" {
+			b4 = "if e." + fe + " == nil { return nil, false }; return e." + fe + ".VerifFunctionNames()"
+		}
 		code = "package " + p.Name + "\n\n// VerifScopes reports the number of open local scopes.\nfunc (e *Eval) VerifScopes() int { " + b1 + " }\n\n// VerifStack reports the depth of the value stack.\nfunc (e *Eval) VerifStack() int { " + b2 + " }\n\n// VerifGlobalNames lists the global variables that exist.\nfunc (e *Eval) VerifGlobalNames() ([]string, bool) { " + b3 + " }\n"
+		code += "\n// VerifFunctionNames lists the registered functions.\nfunc (e *Eval) VerifFunctionNames() ([]string, bool) { " + b4 + " }\n"
 	default:
 		return
 	}
